@@ -952,3 +952,73 @@ package gogen
 //@ ensures result != nil && ImpsGrow(pkg)
 //@ ensures imp(v.Pkg() != nil && v.Pkg() != pkg.Types && v.Pkg() != pkg.builtin.Types, typeis(result, *ast.SelectorExpr) && result.(*ast.SelectorExpr).Sel != nil && result.(*ast.SelectorExpr).Sel.Name == v.Name() && in(pkg.file.imps, v.Pkg().Path()) && result.(*ast.SelectorExpr).X == asI(pkg.file.imps[v.Pkg().Path()], ast.Expr))
 //@ ensures imp((v.Pkg() == nil || v.Pkg() == pkg.Types) && !typeis(v, *types.Var), typeis(result, *ast.Ident) && result.(*ast.Ident).Name == v.Name())
+
+// ---------------------------------------------------------------------------
+// C03 — result types of index, range and iterator expressions
+
+//@ func (*CodeBuilder).getIdxValTypes
+//@ prop C03
+//@ readonly
+//@ requires typ != nil && StdType(typ) && !typeis(typ, *types.Alias)
+//@ loop 0 invariant typ != nil && StdType(typ) && !typeis(typ, *types.Alias) && IdxU(typ) == IdxU(entry(typ))
+//@ ensures len(result0) == 2 && IndexTypesOK(IdxU(typ), ref, result0[0], result0[1], result1)
+
+//@ func checkIteratorFunc
+//@ prop C03 C11
+//@ readonly
+//@ requires sig != nil
+//@ ensures imp(result != nil, len(result) == 2 && IterFuncOK(sig, result[0], result[1]))
+//@ ensures imp(result == nil, !IterShape(sig))
+
+//@ func (*forRangeStmt).checkUdt
+//@ trusted
+//@ readonly
+
+//@ func (*forRangeStmt).getKeyValTypes
+//@ prop C03
+//@ readonly
+//@ requires cb != nil && typ != nil && StdType(typ) && !typeis(typ, *types.Alias) && !typeis(typ, *types.Named) && !(typeis(typ, *types.Pointer) && typeis(typ.(*types.Pointer).Elem(), *types.Named))
+//@ loop 0 invariant typ == entry(typ)
+//@ ensures imp(result != nil, len(result) == 2 && RangeTypesOK(typ, result[0], result[1]))
+//@ ensures imp(result == nil, !exists(z, 0, 1, RangeTypesOK(typ, anyval(rk, types.Type), anyval(rv, types.Type))))
+
+//@ func (*TypeType).Type
+//@ prop C03
+//@ readonly
+//@ ensures result == p.typ
+
+//@ func (*CodeBuilder).loadExpr
+//@ trusted
+//@ readonly
+
+//@ func (*CodeBuilder).missingMethod
+//@ trusted
+//@ readonly
+
+// type switch clause: the symbol bound in a clause that lists exactly one type has that type; in every other clause
+// (several types, nil, default) it has the type of the switch operand (Go spec "Type switches")
+//@ func (*typeCaseStmt).Then
+//@ prop C03 C16
+//@ requires cb != nil && cb.pkg != nil && cb.current.scope != nil && p.pss != nil && StkWf(cb) && forall(i, 0, len(cb.stk.data), cb.stk.data[i] != nil && cb.stk.data[i].Type != nil)
+//@ requires imp(src != nil, len(src) >= 1)
+//@ loop 0 invariant len(args) == n && imp(rangeidx >= 0, typ == ite(typeis(args[rangeidx].Type, *TypeType), args[rangeidx].Type.(*TypeType).typ, args[rangeidx].Type))
+//@ ensures len(cb.stk.data) == old(cb.current.base)
+//@ assertcall NewParam: imp(n == 1 && typeis(args[0].Type, *TypeType), arg_typ == args[0].Type.(*TypeType).typ)
+//@ assertcall NewParam: imp(n != 1, arg_typ == asI(pss.xType, types.Type))
+//@ assertcall NewParam: imp(n == 1 && !typeis(args[0].Type, *TypeType), arg_typ == asI(pss.xType, types.Type))
+//@ assertcall NewParam: arg_name == pss.name && arg_pkg == cb.pkg.Types
+
+// a[i:j] / a[i:j:k] (Go spec "Slice expressions"): operand order in the node (C02), stack arity (C16), result type (C03)
+//@ func (*CodeBuilder).Slice
+//@ prop C03 C02 C16
+//@ requires p.pkg != nil && imp(src != nil, len(src) >= 1)
+//@ requires len(p.stk.data) >= ite(slice3, 4, 3) && forall(i, 0, len(p.stk.data), p.stk.data[i] != nil)
+//@ requires p.stk.data[len(p.stk.data) - ite(slice3, 4, 3)].Type != nil
+//@ ensures len(p.stk.data) == old(len(p.stk.data)) - ite(slice3, 4, 3) + 1
+//@ ensures forall(i, 0, len(p.stk.data) - 1, p.stk.data[i] == old(p.stk.data[i]))
+//@ ensures fresh(p.stk.data[len(p.stk.data)-1]) && typeis(p.stk.data[len(p.stk.data)-1].Val, *ast.SliceExpr)
+//@ ensures p.stk.data[len(p.stk.data)-1].Val.(*ast.SliceExpr).X == old(p.stk.data[len(p.stk.data) - ite(slice3, 4, 3)].Val)
+//@ ensures p.stk.data[len(p.stk.data)-1].Val.(*ast.SliceExpr).Low == old(p.stk.data[len(p.stk.data) - ite(slice3, 4, 3) + 1].Val)
+//@ ensures p.stk.data[len(p.stk.data)-1].Val.(*ast.SliceExpr).High == old(p.stk.data[len(p.stk.data) - ite(slice3, 4, 3) + 2].Val)
+//@ ensures p.stk.data[len(p.stk.data)-1].Val.(*ast.SliceExpr).Slice3 == slice3 && p.stk.data[len(p.stk.data)-1].Val.(*ast.SliceExpr).Max == ite(slice3, old(p.stk.data[len(p.stk.data)-1].Val), nil)
+//@ ensures SliceResultOK(old(p.stk.data[len(p.stk.data) - ite(slice3, 4, 3)].Type), slice3, p.stk.data[len(p.stk.data)-1].Type)
